@@ -19,13 +19,18 @@
    (int64 of the value + shortest decimal text) of a number literal.  The
    theorems of that section hold for every num (num occurs on both sides of
    every iff).  Property C09 is run with num := num_x num0 (json_parse_x):
-   there the model itself fixes the view of every literal - in any spelling -
-   whose value is an integer of magnitude below 2^53, is zero, rounds to zero,
-   or is out of the float64 range; num0 (strconv.ParseFloat at run time, the
-   same function protojson calls) is asked only for values that are not
-   integers and for integers from 2^53 up (subsection "numbers"): a token whose
-   exp / nbf / iat or any other number is written that way gets the verdict
-   the oracle's answer implies, and the model follows it.
+   there the model itself fixes the view of every literal WITHIN A DIGIT BUDGET
+   (at most 800 integer digits; exponent magnitude below 10000 unless the
+   mantissa is zero) - in any spelling - whose value is an integer of magnitude
+   below 2^53, is zero, rounds to zero, or is out of the float64 range; num0
+   (strconv.ParseFloat at run time, the same function protojson calls) is asked
+   for values that are not integers, for integers from 2^53 up, and for EVERY
+   literal outside the digit budget, because there strconv does not read the
+   literal's true value (two deviations of go1.25.11: integer digits beyond the
+   800th are dropped without moving the point; exponent digits are dropped once
+   the accumulated exponent reaches 10000) (subsection "numbers"): a token whose
+   exp / nbf / iat or any other number is written in one of those ways gets
+   the verdict the oracle's answer implies, and the model follows it.
    Times: claims in seconds, clock and skew in nanoseconds. *)
 From Coq Require Import List NArith ZArith Bool.
 From Coq Require String.
@@ -1009,8 +1014,16 @@ Print Assumptions C09_json_printed_text_is_a_byte_string.
    num_x num is the number view property C09 runs with, json_parse_x num =
    json_parse_text (num_x num) the parser.  lit_ok l: the digit strings are
    digit strings (every literal the tokenizer produces is lit_ok:
-   C09_json_number_literal_grammar); int_digits_ok l: the integer part has at
-   most 800 digits. *)
+   C09_json_number_literal_grammar).  THE DIGIT BUDGET of the exact decisions:
+   int_digits_ok l (the integer part has at most 800 digits) and exp_digits_ok l
+   (the mantissa is zero, or the exponent is below 10000 in magnitude).  Outside
+   it strconv.ParseFloat (go1.25.11, pinned by /repo) does NOT read the true
+   value of the literal - (1) integer digits beyond the 800th are dropped
+   without moving the decimal point when the fast paths do not apply (also on
+   go1.23.5 and 1.26.8), (2) the exponent is accumulated with
+   `if e < 10000 { e = e*10 + d }`, so "0." ++ 99999 zeros ++ "1e100000" (value
+   1) is read as 0 - and the model hands the literal to the oracle, i.e.
+   follows strconv. *)
 
 (* how the decimal data is read: the digits before and after the point form
    one integer, the point moves the exponent; a digit string is read in base 10
@@ -1030,40 +1043,48 @@ Print Assumptions C09_json_literal_value_reading.
 (* EXACTLY the literals whose value is an integer of magnitude below 2^53
    (with the literal's sign; "-0" is 0), or is not zero but at most 2^-1075 (a
    float64 conversion rounds it to zero, without error), are decided as
-   integers - whatever the spelling: 1700003600.0, 17000036e2, 1.7000036E+9,
-   100e-2, 0e99, 1e-400.  Such an integer is exactly representable as a
+   integers - whatever the spelling within the digit budget: 1700003600.0,
+   17000036e2, 1.7000036E+9, 100e-2, 0e99999999999, 1e-400.  Such an integer is exactly representable as a
    float64, so a correctly rounded conversion returns it and int64 of it is z:
    that strconv.ParseFloat is correctly rounded on these literals is the part
    the correspondence run checks (the harness number family). *)
 Theorem C09_json_integer_valued_literals_are_decided_exactly :
-  forall l z, lit_ok l -> int_digits_ok l ->
+  forall l z, lit_ok l -> int_digits_ok l -> exp_digits_ok l ->
     (lit_class l = NCInt z <->
      (Z.abs_N z < 9007199254740992 /\ z = lit_sign l (Z.abs_N z)
       /\ (lit_num l = Z.abs_N z * lit_den l
           \/ (z = 0%Z /\ 0 < lit_num l /\ lit_num l * 2 ^ 1075 <= lit_den l)))).
-Proof. intros l z OK LEN. exact (lit_class_int l OK LEN z). Qed.
+Proof. intros l z OK LEN EXP. exact (lit_class_int l OK LEN EXP z). Qed.
 Print Assumptions C09_json_integer_valued_literals_are_decided_exactly.
 
 (* EXACTLY the literals of magnitude >= 2^1024 - 2^970 (the midpoint of the
    largest finite float64 and 2^1024: round-to-nearest-even gives infinity
-   from there on) are refused *)
+   from there on) are refused - within the digit budget (1e9999 is, 1e10000
+   goes to the oracle) *)
 Theorem C09_json_overflowing_literals_are_decided_exactly :
-  forall l, lit_ok l -> int_digits_ok l ->
+  forall l, lit_ok l -> int_digits_ok l -> exp_digits_ok l ->
     (lit_class l = NCOverflow <-> (2 ^ 1024 - 2 ^ 970) * lit_den l <= lit_num l)
     /\ 2 * (2 ^ 1024 - 2 ^ 970) = (2 ^ 53 - 1) * 2 ^ 971 + 2 ^ 1024.
-Proof. intros l OK LEN. split; [exact (lit_class_overflow l OK LEN)|exact f64_over_is_the_midpoint]. Qed.
+Proof. intros l OK LEN EXP. split; [exact (lit_class_overflow l OK LEN EXP)|exact f64_over_is_the_midpoint]. Qed.
 Print Assumptions C09_json_overflowing_literals_are_decided_exactly.
 
-(* the oracle is asked exactly for the rest: values that are not integers
-   (and do not round to zero), integers of magnitude >= 2^53 below the overflow
-   bound - and every literal whose integer part has more than 800 digits
-   (strconv.ParseFloat mis-scales those: see model/Json.v) *)
+(* the oracle is asked exactly for the rest: within the digit budget, values
+   that are not integers (and do not round to zero) and integers of magnitude
+   >= 2^53 below the overflow bound; and EVERY literal outside the budget -
+   more than 800 integer digits, or a non-zero mantissa with an exponent of
+   magnitude >= 10000 (strconv.ParseFloat does not read the true value of
+   those: see model/Json.v) *)
 Theorem C09_json_literals_left_to_the_oracle :
   forall l,
-    (lit_ok l -> int_digits_ok l ->
+    (lit_ok l -> int_digits_ok l -> exp_digits_ok l ->
        (lit_class l = NCOracle <-> (forall z, ~ lit_is_int l z) /\ ~ lit_overflows l))
-    /\ (~ int_digits_ok l -> lit_class l = NCOracle).
-Proof. intros l. split; [exact (lit_class_oracle l)|exact (lit_class_long l)]. Qed.
+    /\ (~ int_digits_ok l -> lit_class l = NCOracle)
+    /\ (~ exp_digits_ok l -> lit_class l = NCOracle)
+    /\ (exp_digits_ok l <-> lit_mant l = 0 \/ (Z.abs (exp_val (nl_exp l)) < 10000)%Z).
+Proof.
+  intros l. split; [exact (lit_class_oracle l)|]. split; [exact (lit_class_long l)|].
+  split; [exact (lit_class_long_exp l)|reflexivity].
+Qed.
 Print Assumptions C09_json_literals_left_to_the_oracle.
 
 (* a decided literal has the same view under every oracle; the old exact path
@@ -1107,8 +1128,10 @@ Print Assumptions C09_json_decided_text_needs_no_oracle.
    NCOracle literals of those two texts.  The JWT rules read numbers in exp,
    nbf, iat only (payload_rule: 0 <= int64 <= 253402300799; validator_rule:
    the comparisons with now and skew), so what the oracle can decide is: the
-   fate of a token whose exp / nbf / iat is written as a non-integer or as an
-   integer from 2^53 up; whether a text containing such a literal ANYWHERE is
+   fate of a token whose exp / nbf / iat is written as a non-integer, as an
+   integer from 2^53 up, or outside the digit budget (more than 800 integer
+   digits, exponent magnitude >= 10000: there strconv's answer need not be the
+   literal's value, and the model follows strconv); whether a text containing such a literal ANYWHERE is
    accepted JSON at all (the oracle may answer None); and the value reported
    for such a custom claim.  C09_text_oracle_decides_undecided_timestamps
    below shows that this dependence is real. *)
@@ -1120,8 +1143,9 @@ Proof. exact verify_x_oracle_dependence. Qed.
 Print Assumptions C09_text_verdict_depends_on_the_oracle_only_at_undecided_literals.
 
 (* token_decided tok: every number literal of the header and payload texts - at
-   any depth, in ANY spelling - is an integer below 2^53, zero, an underflow or
-   an overflow.  Then the verdict and the claims are the model's alone: the
+   any depth, in ANY spelling within the digit budget (at most 800 integer
+   digits; exponent below 10000 in magnitude unless the mantissa is zero) - is
+   an integer below 2^53, zero, an underflow or an overflow.  Then the verdict and the claims are the model's alone: the
    same for every two oracles.  The same for a JWK set text. *)
 Theorem C09_text_verdict_of_a_decided_token_is_independent_of_the_oracle :
   forall num1 num2 (sig_valid : N -> bytes -> bytes -> bool) keys o tok,
@@ -1193,14 +1217,13 @@ Theorem C09_json_escape_tables :
         In (c, v) [(48, 0); (49, 1); (50, 2); (51, 3); (52, 4); (53, 5); (54, 6); (55, 7); (56, 8); (57, 9);
                    (97, 10); (98, 11); (99, 12); (100, 13); (101, 14); (102, 15);
                    (65, 10); (66, 11); (67, 12); (68, 13); (69, 14); (70, 15)])
-  /\ (forall a b c d u, hex4 a b c d = Some u <->
-        exists x y z w, hexval a = Some x /\ hexval b = Some y /\ hexval c = Some z /\ hexval d = Some w
+  /\ (forall a b c d u, hex4 a b c d = Some u <-> hex4_rfc a b c d u)
+  /\ (forall a b c d u, hex4_rfc a b c d u <->
+        exists x y z w, In (a, x) hex_digits /\ In (b, y) hex_digits /\ In (c, z) hex_digits /\ In (d, w) hex_digits
                         /\ u = x * 4096 + y * 256 + z * 16 + w).
 Proof.
-  split; [exact simple_escape_table|]. split; [exact hexval_table|].
-  intros a b c d u. rewrite hex4_table. unfold hex4_rfc.
-  split; intros [x [y [z [w [Ha [Hb [Hc [Hd E]]]]]]]]; exists x, y, z, w;
-    (repeat (split; [apply hexval_table; assumption|])); exact E.
+  split; [exact simple_escape_table|]. split; [exact hexval_table|]. split; [exact hex4_table|].
+  intros a b c d u. reflexivity.
 Qed.
 Print Assumptions C09_json_escape_tables.
 
@@ -1499,13 +1522,18 @@ Section JsonExample.
     parse_x (bs "{""a"":[1700003600.0,17000036e2,1.7000036E+9,170000360000e-2,0.00000017000036e16,1e3,100e-2,-12.50e1]}")
     = Some [(a, JArr [JNum 1700003600 []; JNum 1700003600 []; JNum 1700003600 []; JNum 1700003600 [];
                       JNum 1700003600 []; JNum 1000 []; JNum 1 []; JNum (-125) []])]
-    /\ parse_x (bs "{""a"":[-0,-0.0e7,0e99999999999999999999,1e-400,-1e-400,2.4e-324,1e-99999999999999999999]}")
+    /\ parse_x (bs "{""a"":[-0,-0.0e7,0e99999999999999999999,1e-400,-1e-400,2.4e-324,1e-9999]}")
        = Some [(a, JArr [JNum 0 []; JNum 0 []; JNum 0 []; JNum 0 []; JNum 0 []; JNum 0 []; JNum 0 []])]
     /\ parse_x (bs "{""a"":9007199254740991.0}") = Some [(a, JNum 9007199254740991 [])]
     (* out of range: refused by the model *)
     /\ parse_x (bs "{""a"":1e400}") = None /\ parse_x (bs "{""a"":-1e309}") = None
-    /\ parse_x (bs "{""a"":1.7976931348623159e308}") = None /\ parse_x (bs "{""a"":1e99999999999999999999}") = None
-    /\ json_parse_x (fun _ => Some (7%Z, [])) (bs "{""a"":1e400}") = None
+    /\ parse_x (bs "{""a"":1.7976931348623159e308}") = None /\ parse_x (bs "{""a"":1e9999}") = None
+    /\ json_parse_x (fun _ => Some (7%Z, [])) (bs "{""a"":[1e400,1e9999]}") = None
+    (* outside the digit budget (exponent magnitude >= 10000 on a non-zero
+       mantissa): the oracle is asked, whatever the true value *)
+    /\ json_parse_x (fun _ => Some (7%Z, [])) (bs "{""a"":[1e10000,1e-10000,0.1e99999999999999999999]}")
+       = Some [(a, JArr [JNum 7 []; JNum 7 []; JNum 7 []])]
+    /\ text_decided (bs "{""a"":1e10000}") = false /\ text_decided (bs "{""a"":0.000e10000}") = true
     (* left to the oracle: this one refuses, that one answers *)
     /\ parse_x (bs "{""a"":1.5}") = None /\ parse_x (bs "{""a"":9007199254740992}") = None
     /\ parse_x (bs "{""a"":2.5e-324}") = None /\ parse_x (bs "{""a"":1.7976931348623158e308}") = None
@@ -1527,38 +1555,52 @@ Section JsonExample.
     let l1 := mkLit false [49] [55; 48; 48; 48; 48; 51; 54] (Some (false, [57])) in
     let l2 := mkLit true [49] [] (Some (false, [52; 48; 48])) in
     let l3 := mkLit false [49] [53] None in
-    (lit_ok l1 /\ int_digits_ok l1 /\ lit_num l1 = 1700003600 /\ lit_den l1 = 1
+    (lit_ok l1 /\ int_digits_ok l1 /\ exp_digits_ok l1 /\ lit_num l1 = 1700003600 /\ lit_den l1 = 1
      /\ lit_is_int l1 1700003600 /\ lit_class l1 = NCInt 1700003600)
-    /\ (lit_ok l2 /\ int_digits_ok l2 /\ lit_overflows l2 /\ lit_class l2 = NCOverflow)
-    /\ (lit_ok l3 /\ int_digits_ok l3 /\ lit_num l3 = 15 /\ lit_den l3 = 10 /\ lit_class l3 = NCOracle)
+    /\ (lit_ok l2 /\ int_digits_ok l2 /\ exp_digits_ok l2 /\ lit_overflows l2 /\ lit_class l2 = NCOverflow)
+    /\ (lit_ok l3 /\ int_digits_ok l3 /\ exp_digits_ok l3 /\ lit_num l3 = 15 /\ lit_den l3 = 10 /\ lit_class l3 = NCOracle)
     (* more than 800 integer digits: left to the oracle, whatever the value *)
     /\ (let l4 := mkLit false (49 :: repeat 48 800) [] (Some (true, [56; 48; 48])) in
-        ~ int_digits_ok l4 /\ lit_class l4 = NCOracle).
+        ~ int_digits_ok l4 /\ lit_class l4 = NCOracle)
+    (* exponent 10000 on a non-zero mantissa: left to the oracle (true value 1:
+       0.<9999 zeros>1e10000); on a zero mantissa: still decided *)
+    /\ (let l5 := mkLit false [48] (repeat 48 9999 ++ [49]) (Some (false, [49; 48; 48; 48; 48])) in
+        ~ exp_digits_ok l5 /\ lit_num l5 = 1 /\ lit_den l5 = 1 /\ lit_class l5 = NCOracle)
+    /\ (let l6 := mkLit true [48] [48] (Some (false, [49; 48; 48; 48; 48])) in
+        exp_digits_ok l6 /\ lit_class l6 = NCInt 0).
   Proof.
     assert (D : forall ds, forallb is_digit ds = true -> digits_ok ds) by (intros ds H; exact H).
-    cbv zeta. split; [|split; [|split]].
+    assert (X0 : forall l, (Z.abs (exp_val (nl_exp l)) <? 10000)%Z = true -> exp_digits_ok l)
+      by (intros l H; right; apply Z.ltb_lt; exact H).
+    cbv zeta. split; [|split; [|split; [|split; [|split]]]].
     - assert (OK : lit_ok (mkLit false [49] [55; 48; 48; 48; 48; 51; 54] (Some (false, [57])))).
       { split; [right; exists 49, []; repeat split; discriminate|]. split; [reflexivity|]. split; [discriminate|reflexivity]. }
       assert (LEN : int_digits_ok (mkLit false [49] [55; 48; 48; 48; 48; 51; 54] (Some (false, [57]))))
         by (unfold int_digits_ok, max_int_digits; cbn; repeat constructor).
       assert (C : lit_class (mkLit false [49] [55; 48; 48; 48; 48; 51; 54] (Some (false, [57]))) = NCInt 1700003600)
         by (vm_compute; reflexivity).
-      split; [exact OK|]. split; [exact LEN|]. split; [vm_compute; reflexivity|]. split; [vm_compute; reflexivity|].
+      assert (EXP : exp_digits_ok (mkLit false [49] [55; 48; 48; 48; 48; 51; 54] (Some (false, [57]))))
+        by (apply X0; reflexivity).
+      split; [exact OK|]. split; [exact LEN|]. split; [exact EXP|]. split; [vm_compute; reflexivity|]. split; [vm_compute; reflexivity|].
       split; [|exact C].
-      apply (C09_json_integer_valued_literals_are_decided_exactly _ _ OK LEN). exact C.
+      apply (C09_json_integer_valued_literals_are_decided_exactly _ _ OK LEN EXP). exact C.
     - assert (OK : lit_ok (mkLit true [49] [] (Some (false, [52; 48; 48])))).
       { split; [right; exists 49, []; repeat split; discriminate|]. split; [reflexivity|]. split; [discriminate|reflexivity]. }
       assert (LEN : int_digits_ok (mkLit true [49] [] (Some (false, [52; 48; 48]))))
         by (unfold int_digits_ok, max_int_digits; cbn; repeat constructor).
       assert (C : lit_class (mkLit true [49] [] (Some (false, [52; 48; 48]))) = NCOverflow) by (vm_compute; reflexivity).
-      split; [exact OK|]. split; [exact LEN|]. split; [|exact C].
-      apply (lit_class_overflow _ OK LEN). exact C.
-    - split; [|split; [unfold int_digits_ok, max_int_digits; cbn; repeat constructor|repeat split; vm_compute; reflexivity]].
+      assert (EXP : exp_digits_ok (mkLit true [49] [] (Some (false, [52; 48; 48])))) by (apply X0; reflexivity).
+      split; [exact OK|]. split; [exact LEN|]. split; [exact EXP|]. split; [|exact C].
+      apply (lit_class_overflow _ OK LEN EXP). exact C.
+    - split; [|split; [unfold int_digits_ok, max_int_digits; cbn; repeat constructor|split; [apply X0; reflexivity|repeat split; vm_compute; reflexivity]]].
       split; [right; exists 49, []; repeat split; discriminate|]. split; [reflexivity|exact I].
     - split; [|vm_compute; reflexivity].
       unfold int_digits_ok, max_int_digits. cbn [nl_int]. intros H.
       change (S (List.length (repeat 48 800)) <= 800)%nat in H. rewrite repeat_length in H.
       exact (Nat.nle_succ_diag_l _ H).
+    - split; [|split; [vm_compute; reflexivity|split; vm_compute; reflexivity]].
+      intros [H|H]; [vm_compute in H; discriminate|]. vm_compute in H. discriminate.
+    - split; [left; vm_compute; reflexivity|vm_compute; reflexivity].
   Qed.
 
   (* THE DEPENDENCE IS REAL.  Header {"alg":"HS256"}, clock at 1700000000 s.
